@@ -255,6 +255,9 @@ func (f *ScriptFS) answer(inv *Inv, variant int) {
 			txt += "e"
 		}
 		m = &Msg{Type: Rerror, Ename: txt, Errno: uint32(u>>24) & 0xFFFF}
+		if u%5 == 3 {
+			m.Errno = 0 // an error without a number (relayed from a plain 9P2000 back end, say)
+		}
 		f.setExpect(inv, variant, m)
 		req.RespondError(&go9p.Error{Err: txt, Errornum: m.Errno})
 		return
